@@ -27,23 +27,46 @@ def strip(line):
     return line[:-2] if line.endswith(" ~") else line
 
 
-def run_shard(binpath, mode, seed, tier, n, outdir, replay=None, toggles_sets=(), core=True):
+STATE_SEP = " #S "
+STATE_MAX_CASES = 2000      # per shard: digests for the first N cases of a shard (quick shards have ~410 cases: all of them)
+
+
+def run_shard(binpath, mode, seed, tier, n, outdir, replay=None, toggles_sets=(), core=True, state=False):
+    """state=True (acyclic modes): the harness also writes state_impl.txt (a digest of the real engine's
+    persistent bookkeeping after every session / round, read through the read-only hook
+    qbice::verif::dump_node) and the as-is / descending model runs append ` #S <digest of St>` to their
+    lines; the digests are split off here and compared in `analyse`."""
     os.makedirs(outdir, exist_ok=True)
     cmd = [binpath, "--seed", str(seed), "--tier", tier, "--out", outdir, "--mode", mode, "--n", str(n)]
     if replay: cmd += ["--replay", replay]
+    if state: cmd += ["--state", "--state-max", str(STATE_MAX_CASES)]
     p = subprocess.run(cmd, stdout=subprocess.PIPE, stderr=subprocess.STDOUT, text=True, timeout=7200)
     if p.returncode != 0:
         return {"error": f"harness exited {p.returncode}: {p.stdout[-2000:]}"}
-    outs = {}
-    for name, args in [("asis", []), ("desc", ["desc"])] + [(" ".join(t), list(t)) for t in toggles_sets] + ([("core", ["core", "corefull"])] if core else []):
+    outs, mstates = {}, {}
+    st = ["state", f"statemax={STATE_MAX_CASES}"] if state else []
+    for name, args in [("asis", st), ("desc", ["desc"] + st)] + [(" ".join(t), list(t)) for t in toggles_sets] + ([("core", ["core", "corefull"])] if core else []):
         path = os.path.join(outdir, "model_" + name.replace(" ", "_") + ".txt")
         rc, err = vlib.run_driver("drv_engine", os.path.join(outdir, "ops.txt"), path, args)
         if rc != 0:
             return {"error": f"driver {name} exited {rc}: {err[-1000:]}"}
-        outs[name] = open(path).read().split("\n")
+        lines = open(path).read().split("\n")
+        if "state" in args:
+            parts = [l.split(STATE_SEP, 1) for l in lines]
+            lines = [p[0] for p in parts]
+            mstates[name] = [(p[1] if len(p) == 2 else None) for p in parts]
+        outs[name] = lines
     rd = lambda f: open(os.path.join(outdir, f)).read().split("\n")
-    return {"ops": rd("ops.txt"), "impl": rd("impl.txt"), "expect": rd("expect.txt"), "models": outs,
-            "report": json.load(open(os.path.join(outdir, "report.json")))}
+    sh = {"ops": rd("ops.txt"), "impl": rd("impl.txt"), "expect": rd("expect.txt"), "models": outs,
+          "report": json.load(open(os.path.join(outdir, "report.json")))}
+    if state:
+        if not os.path.exists(os.path.join(outdir, "state_impl.txt")):
+            return {"error": "harness did not write state_impl.txt (--state)"}
+        sh["state_impl"] = rd("state_impl.txt")
+        sh["model_states"] = mstates
+        if len(sh["state_impl"]) != len(sh["ops"]):
+            return {"error": f"state_impl.txt has {len(sh['state_impl'])} lines, ops.txt {len(sh['ops'])}"}
+    return sh
 
 
 def run_model_on_case(case_lines, args):
@@ -73,6 +96,20 @@ def find_order(case_lines, impl_lines, idx0, values_only, extra=()):
     return None
 
 
+def state_diff(model, impl):
+    """first differing node of two digests: (key, differing field names, model node, impl node)"""
+    mp = {x.split(":", 1)[0]: x for x in model.split(" ; ") if x}
+    ip = {x.split(":", 1)[0]: x for x in impl.split(" ; ") if x}
+    for k in sorted(set(mp) | set(ip), key=lambda x: int(x) if x.isdigit() else -1):
+        a, b = mp.get(k), ip.get(k)
+        if a == b: continue
+        if a is None or b is None: return k, ["node-presence"], a, b
+        names = ["key", "kind", "verified", "val", "deps", "obs", "dirty", "tfc", "pend", "back"]
+        fa, fb = a.split(":"), b.split(":")
+        return k, [names[j] if j < len(names) else "?" for j in range(max(len(fa), len(fb))) if (fa[j:j + 1] != fb[j:j + 1])], a, b
+    return None, [], None, None
+
+
 def analyse(sh, single_toggles):
     """Per-case classification (DESIGN §2.4, §10.2).
 
@@ -94,7 +131,12 @@ def analyse(sh, single_toggles):
     res = {"cases": 0, "lines": 0, "impl_fail_cases": [], "disagree": [], "excused_disagree": 0,
            "core_lines": 0, "core_cases": 0, "core_disagree": [], "attributed": {}, "unexplained": [],
            "exec_disagree": [], "model_asis_unsound_cases": 0, "order_sensitive_cases": 0,
-           "order_matched_desc": 0, "order_matched_tape": 0, "order_unresolved": 0, "order_values_only": 0}
+           "order_matched_desc": 0, "order_matched_tape": 0, "order_unresolved": 0, "order_values_only": 0,
+           "state_lines": 0, "state_cases": 0, "state_skipped_cases": 0, "state_skipped_lines": 0, "state_disagree": [],
+           "state_os_match_asc": 0, "state_os_match_desc": 0, "state_os_match_neither": 0, "state_nodes": 0, "state_cases_without_digest": 0}
+    st_impl = sh.get("state_impl")
+    st_asis = (sh.get("model_states") or {}).get("asis")
+    st_desc = (sh.get("model_states") or {}).get("desc")
     for (a, b) in split_cases(ops):
         if b - a <= 1: continue
         res["cases"] += 1
@@ -115,6 +157,30 @@ def analyse(sh, single_toggles):
         order_sensitive = unordered or any(raw[i].endswith(" ~") for i in idx) or any(desc[i] != asis[i] for i in idx)
         if order_sensitive: res["order_sensitive_cases"] += 1
         reproduced_values = not any(vals(impl[i]) != vals(asis[i]) for i in idx)   # as-is (ascending) predicts impl's values
+        # STATE-LEVEL tie: after every session / round that both sides completed, the digest of the real
+        # engine's persistent bookkeeping (kind, verified-this-epoch, stored value, recorded dependencies in
+        # order, observations and whether they are still current, dirty edges, firewall set, pending flag,
+        # callers) must EQUAL the digest of the model state.  Strict for cases without order choice points;
+        # cases with choice points are not judged (counted; matching the ascending / descending run is recorded).
+        if st_impl is not None and st_asis is not None:
+            sidx = [i for i in idx if st_asis[i] is not None and st_impl[i] not in ("", "crash", "-")]
+            if not sidx: res["state_cases_without_digest"] += 1
+            elif not order_sensitive:
+                res["state_cases"] += 1
+                for i in sidx:
+                    res["state_lines"] += 1
+                    res["state_nodes"] += st_impl[i].count(" ; ") + 1
+                    if st_impl[i] != st_asis[i]:
+                        k, fields, mnode, inode = state_diff(st_asis[i], st_impl[i])
+                        res["state_disagree"].append({"case": text, "op": ops[i], "impl": f"state after the op, node {k}: {inode}",
+                                                      "model": f"state after the op, node {k}: {mnode}", "fields": fields})
+                        break
+            else:
+                res["state_skipped_cases"] += 1
+                res["state_skipped_lines"] += len(sidx)
+                if all(st_impl[i] == st_asis[i] for i in sidx): res["state_os_match_asc"] += 1
+                elif st_desc is not None and all(st_desc[i] is not None and st_impl[i] == st_desc[i] for i in sidx): res["state_os_match_desc"] += 1
+                else: res["state_os_match_neither"] += 1
         label_args = []
         if dis:
             i = dis[0]
@@ -167,7 +233,7 @@ def analyse(sh, single_toggles):
     return res
 
 
-def run_all(ctx, mode, n_quick, n_thorough, single_toggles):
+def run_all(ctx, mode, n_quick, n_thorough, single_toggles, state=True):
     ok, out, dt, binpath = vlib.cargo_build("engine")
     ctx.notes.append(f"cargo build engine {dt:.1f}s")
     if not ok:
@@ -179,7 +245,9 @@ def run_all(ctx, mode, n_quick, n_thorough, single_toggles):
         shards = [0]
     def one(i):
         return run_shard(binpath, mode, ctx.seed * 1000 + i, ctx.tier, n, os.path.join(ctx.work, f"{mode}-{i}"),
-                         replay=ctx.replay, toggles_sets=tsets, core=(mode != "cyclic"))
+                         replay=ctx.replay, toggles_sets=tsets, core=(mode != "cyclic"),
+                         # VERIF_NO_STATE_TIE=1: diagnostic switch used only to measure what the state tie adds
+                         state=(state and mode != "cyclic" and not os.environ.get("VERIF_NO_STATE_TIE")))
     results = vlib.shard_map(one, shards, ctx.jobs)
     for r in results:
         if "error" in r: return None, r["error"]
